@@ -5,4 +5,8 @@ CONSTANTS
   Sequential = TRUE
   Mode = "mc"
   EmitTR = FALSE
+  Api = "output"
+  WCaps = {1, 3}
+  WriteAll = TRUE
+  SpawnWaits = FALSE
 INVARIANTS Delivered InOrder
